@@ -4,7 +4,8 @@ set -u
 P="$1"; shift
 SUF="${SUF:-}"          # e.g. SUF=b for the second round (worktrees /tmp/w2_<PID>, stored as seeded/<PID>b)
 WT=${WT:-/tmp/wt_$P}
-[ -n "$SUF" ] && WT=/tmp/w2_$P
+[ "$SUF" = b ] && WT=/tmp/w2_$P
+[ "$SUF" = c ] && WT=/tmp/w3_$P
 D=/verif/seeded/$P$SUF
 [ -f "$WT/seed_patch.diff" ] || { echo "no patch in $WT"; exit 2; }
 mkdir -p "$D"
